@@ -1,6 +1,6 @@
 /-
 Model of sktime's series-to-series transformers that offer `inverse_transform`, and of the
-positional/label access inside `HampelFilter` (property C13).  Import-free.
+positional window access inside `HampelFilter` (property C13).  Import-free.
 
 Follows the code's algorithm (mutation → returned state; a call that raises half-way returns the
 state as the code leaves it, plus the error):
